@@ -31,18 +31,21 @@ class NgapMalformed(Stream):
         S = self.S
         ref = A.Ref(S)
         out = []
+        self.values = []
         reps = 1 if tier == "quick" else 4
         for rep in range(reps):
             for (cls, j, code, name) in A.ngap_messages(S):
                 try:
                     v = A.gen_pdu_of(A.Gen(S, rng), S, cls, j)
                     out.append(("NGAPPDU", ref.encode("ngapType.NGAPPDU", S.root["NGAPPDU"]["Params"], v)))
+                    self.values.append(("NGAPPDU", "ngapType.NGAPPDU", S.root["NGAPPDU"]["Params"], v))
                 except (A.NoValue, A.Refuse, A.Frag):
                     continue
             for r in S.roots[1:]:
                 try:
                     v = A.Gen(S, rng).gen(r['Type'], A.parse_tag(r['Params']))
                     out.append((r['Name'], ref.encode(r['Type'], r['Params'], v)))
+                    self.values.append((r['Name'], r['Type'], r['Params'], v))
                 except (A.NoValue, A.Refuse, A.Frag):
                     continue
         return out
@@ -80,6 +83,32 @@ class NgapMalformed(Stream):
                 if rng.chance(1, 2): del m[k]
                 else: m.insert(k, rng.below(256))
                 add(root, m, "indel")
+        # over-claimed lengths and counts, written by the reference encoder itself so that the enclosing open-type
+        # lengths stay right: fragment-marker runs, 16383, the constraint's maximum
+        ref = A.Ref(self.S)
+        for (root, tname, params, v) in self.values:
+            cnt = A.Adv(); A.adv.cur = cnt
+            try:
+                ref.encode(tname, params, v)
+            except (A.Refuse, A.Frag):
+                continue
+            finally:
+                A.adv.cur = None
+            sites = list(range(cnt.n))
+            picks = sites if len(sites) <= 3 else [rng.choice(sites) for _ in range(3 if quick else 10)]
+            plan = [(site, rng.choice(['frag', 'frag', 'frag', 'max', 'b127']), rng.choice([1, 2, 4, 16, 40]),
+                     rng.choice([0xC4, 0xC4, 0xC1, 0xC2, 0xC3])) for site in picks]
+            # every element count that is a general length determinant gets the longest marker run
+            plan += [(site, 'frag', 40, 0xC4) for site in sites if cnt.kinds[site] == 'count*']
+            for (site, mode, k, marker) in plan:
+                a = A.Adv(site, mode, k, marker)
+                A.adv.cur = a
+                try:
+                    add(root, ref.encode(tname, params, v), "overclaim-" + mode)
+                except (A.Refuse, A.Frag):
+                    pass
+                finally:
+                    A.adv.cur = None
         for _ in range(60 if quick else 1500):           # splices
             (r1, a), (r2, b) = rng.choice(seeds), rng.choice(seeds)
             add(r1, a[:rng.below(len(a) + 1)] + b[rng.below(len(b) + 1):], "splice")
